@@ -25,6 +25,7 @@ From TV Require Import Dispatch.Sched_Proofs_Cache.
 From TV Require Import Dispatch.Sched_Proofs_Emit.
 From TV Require Import Dispatch.Sched_Proofs_Main.
 From TV Require Import Dispatch.Sched_Examples.
+From TV Require Import Dispatch.Sched_World.
 Import ListNotations.
 
 (** ** No thread deadlocks: in every reachable state with an unfinished thread some thread can move.
@@ -173,7 +174,13 @@ Theorem C04_ghost_event :
 Proof. exact emit_event_ghost. Qed.
 Print Assumptions C04_ghost_event.
 
-(** the worlds the correspondence instantiates satisfy the side condition (the example world of this file) *)
+(** the worlds the correspondence instantiates (tables of answers per filter value and callsite) satisfy the side
+    condition whenever the kernel-evaluated check [wf_tableb] succeeds; the driver evaluates it for every world *)
+Theorem C04_worlds_wf :
+  forall filters levels, wf_tableb filters levels = true -> WFworld (mk_world filters levels).
+Proof. exact mk_world_wf. Qed.
+Print Assumptions C04_worlds_wf.
+
 Theorem C04_example_world_wf : WFworld WX.
 Proof. exact WX_wf. Qed.
 Print Assumptions C04_example_world_wf.
